@@ -226,6 +226,14 @@ def attach_scc_subdiagram(
         # This `scc_sd` has a single minimal SCC, which thus corresponds to the `attach_at` point.
         return [attach_at]
 
+    # Check the `scc_sd` nodes for MAAs first. The attractor search can fail (e.g. due to
+    # a resource limit), and such failure must not leave `sd` in a partially attached state.
+    no_maa: dict[int, bool] = {}
+    if check_maa:
+        for scc_node_id in scc_sd.node_ids():
+            candidates = scc_sd.node_attractor_candidates(scc_node_id, compute=True)
+            no_maa[scc_node_id] = len(candidates) == 0
+
     # Maps node IDs from the `scc_sd` to the extended and copied nodes in `sd`.
     node_id_map: dict[int, int] = {scc_sd.root(): attach_at}
 
@@ -251,7 +259,7 @@ def attach_scc_subdiagram(
             _mark_expanded(sd, main_node_id)
 
         if check_maa:
-            if len(scc_sd.node_attractor_candidates(scc_node_id, compute=True)) == 0:
+            if no_maa[scc_node_id]:
                 sd.node_data(main_node_id)["attractor_seeds"] = []
                 sd.node_data(main_node_id)["attractor_sets"] = []
 
@@ -275,7 +283,7 @@ def attach_scc_subdiagram(
     _mark_expanded(sd, attach_at)
     # Finally, if we are checking for MAAs, we can do that for the root too:
     if check_maa:
-        if len(scc_sd.node_attractor_candidates(scc_sd.root(), compute=True)) == 0:
+        if no_maa[scc_sd.root()]:
             sd.node_data(attach_at)["attractor_seeds"] = []
             sd.node_data(attach_at)["attractor_sets"] = []
 
